@@ -8,6 +8,7 @@ import orswot_abs
 
 CONFIGS = ['prod']
 EXPLANATION = (
+    'T2: every constructor that packs a caller-supplied Duration refuses seconds above 2^32 - 1 before the packer is reached (the order of the packed words is the order of the times only for seconds the field can hold). '
     'SEM (primary): the per-key transfer functions of insert_with_source / delete_with_source over the 7 abstract inputs (key absent / live / tombstoned, s'
     'tamp older / equal / newer) equal the last-write-wins register (insert wins a tie; returned flag = state changed; version gate can refuse); VSEM: the '
     'per-source stamp is a max-register. Structural fallback: '
@@ -141,6 +142,9 @@ def check_R(ctx, facts):
 
 def check(ctx):
     facts = ctx.facts('prod')
+    # T2: "later time = larger word" holds only for seconds the seconds field can hold: the constructor refuses the rest (= C10.E7)
+    import c10
+    c10.check_constructor_range(ctx, facts, rule='C04.T2')
     roots = [facts.body(OS + 'insert_with_source'), facts.body(OS + 'delete_with_source')]
     # the per-source stamp update the mutators gate on (found by role: the NodeVersions predicate steering their early return)
     stamp = None
